@@ -48,7 +48,7 @@ static struct {
 	/* notes */
 	nsync_note note[MAXOBJ]; int nnotes; int freed[MAXOBJ]; int notify_called[MAXOBJ]; int parent_of[MAXOBJ]; int dl_of[MAXOBJ];
 	char *nwbase[RT_MAXT]; int wobjs[RT_MAXT][8]; int nwobjs[RT_MAXT]; int nwheap[RT_MAXT]; int nwinit[RT_MAXT];
-	waiter *wt[RT_MAXT]; int swnote[RT_MAXT], swlive[RT_MAXT]; long vgiven[RT_MAXT], vtaken[RT_MAXT];
+	waiter *wt[RT_MAXT]; int swnote[RT_MAXT], swlive[RT_MAXT], inwait[RT_MAXT]; long vgiven[RT_MAXT], vtaken[RT_MAXT];
 	int seen_notified[MAXOBJ]; int called[MAXOBJ]; int lpar[MAXOBJ]; int pending_new[RT_MAXT]; int notify_returned[MAXOBJ];
 	int ideal; int cz; nsync_mu *cmu; int cfreed;
 	int *cells;          /* client data for the happens-before oracle (C03), one cell per thread */
@@ -88,6 +88,7 @@ static void once_fn1 (void) { rt_point ("f0"); S.runs[1]++; S.running[1] = 1; wr
 static void once_fa (void *a) { if ((long) a == 0) once_fn0 (); else once_fn1 (); }
 
 /* ------------------------------------------------------------------ client */
+static int notification_in_progress (void);
 static void client (void *arg) {
 	int t = (int) (long) arg, ip;
 	for (ip = 0;; ip++) {
@@ -166,9 +167,11 @@ static void client (void *arg) {
 				S.ret[t] = 1;
 			} else if (!strcmp (o->name, "poll") || !strcmp (o->name, "wait")) {
 				int r, must = 0, seen0 = S.seen_notified[a];   /* what had been observed before this observation began (an overlapping one does not count) */
-				{ int x = a, k; for (k = 0; k < MAXOBJ && x != 0; k++, x = S.lpar[x]) if (S.notify_returned[x]) must = 1; }   /* an ancestor's (or its own) notify has returned before this observation began */
+				{ int x = a, k, quiet = !notification_in_progress (); for (k = 0; k < MAXOBJ && x != 0; k++, x = S.lpar[x]) if (S.notify_returned[x] && (x == a || quiet)) must = 1; }   /* an ancestor's (or its own) notify has returned before this observation began */
 				if (!strcmp (o->name, "wait")) { S.wobjs[t][0] = a; S.nwobjs[t] = 1; S.nwbase[t] = NULL; S.nwinit[t] = 0; }
+				S.inwait[t] = !strcmp (o->name, "wait");
 				r = !strcmp (o->name, "poll") ? nsync_note_is_notified (S.note[a]) : nsync_note_wait (S.note[a], deadline (o->dl));
+				S.inwait[t] = 0;
 				if (!strcmp (o->name, "poll")) {
 					/* nsync_note_expiry: the note's own expiry (the projection compares the field with the specification's exp, which is the
 					   minimum over the path to the root: C08) */
@@ -197,13 +200,14 @@ static void client (void *arg) {
 					else { w[cnt].v = S.note[id]; w[cnt].funcs = &nsync_note_waitable_funcs; }
 					pw[cnt] = &w[cnt]; cnt++;
 				}
-				S.nwobjs[t] = cnt; S.nwbase[t] = NULL; S.nwinit[t] = 0;
+				S.nwobjs[t] = cnt; S.nwbase[t] = NULL; S.nwinit[t] = 0; S.inwait[t] = 1;
 				if (o->x == 2) {
 					/* the caller's mutex is handed to nsync_wait_n, which must give it back held */
 					r = nsync_wait_n (S.cmu, (void (*) (void *)) &nsync_mu_lock, (void (*) (void *)) &nsync_mu_unlock, deadline (o->dl), cnt, pw);
 					if (rt_ideal_holder ? rt_ideal_holder (S.cmu) != t + 1 : rt_held_by (S.cmu, t) != 1) rt_violation ("O-ret", "nsync_wait_n returned %d without holding the caller's mutex", r);
 				} else
 				r = nsync_wait_n (NULL, NULL, NULL, deadline (o->dl), cnt, pw);
+				S.inwait[t] = 0;
 				if (r < cnt) {
 					int id = S.wobjs[t][r], x = id, cause = 0;
 					if (id == 9) { if (!S.cz) rt_violation ("O-ret", "nsync_wait_n returned index %d (the counter) but the counter has never been zero", r); if (S.hbdata) rd_cells (); }
@@ -219,7 +223,7 @@ static void client (void *arg) {
 			} else if (!strcmp (o->name, "swc")) {
 				/* nsync_sem_wait_with_cancel_ (this thread's waiter, dl, note a or NULL): what cv / mu waiters with a cancel note sleep in */
 				int r, must = 0, x, k, cause = 0;
-				for (k = 0, x = a; k < MAXOBJ && x != 0; k++, x = S.lpar[x]) if (S.notify_returned[x]) must = 1;
+				{ int quiet = !notification_in_progress (); for (k = 0, x = a; k < MAXOBJ && x != 0; k++, x = S.lpar[x]) if (S.notify_returned[x] && (x == a || quiet)) must = 1; }
 				S.nwobjs[t] = 0; S.nwbase[t] = NULL; S.swnote[t] = a;
 				S.swlive[t] = 1;
 				r = nsync_sem_wait_with_cancel_ (S.wt[t], deadline (o->dl), a ? S.note[a] : NULL);
@@ -464,8 +468,17 @@ static int pre (int actor, const char *label, const char *prev, const char *exp,
 	}
 	return 0;
 }
+static int dbg_steps;
+/* C08: "once no notification of it or of an ancestor is still in progress ... every thread waiting on them is released": a second
+   nsync_note_notify that finds the flag already set returns at once, while the first call may still be waking the waiters */
+static int notification_in_progress (void) {
+	int i;
+	for (i = 0; i < S.n; i++) if (rt_state (i) != F_DONE && (rt_in_function (i, "note_notify_child") || rt_in_function (i, "notify"))) return 1;
+	return 0;
+}
 static void note_step (int t) {
 	const struct rt_op *o = rt_last (t);
+	if (dbg_steps) { char nb[64], fb[64]; fprintf (stderr, "step t%d %s %s a=%u b=%u r=%u ok=%d fn=%s now=%ld\n", t + 1, rt_kind_name (o->kind), o->addr ? rt_addr_name (o->addr, nb, sizeof nb) : "-", o->a, o->b, o->res, o->ok, rt_op_fn (o, fb, sizeof fb), (long) (rt_now () - RT_T0)); }
 	if (S.kind == K_NOTE && o->kind == OP_SEMV) { int x; for (x = 0; x < S.n; x++) if (S.wt[x] && o->addr == (void *) &S.wt[x]->sem) S.vgiven[x]++; }
 	if ((o->kind == OP_ST || o->kind == OP_LD) && o->addr && rt_stack_owner (o->addr) >= 0) S.nwrec[rt_stack_owner (o->addr)] = o->addr;
 	if (S.kind == K_NOTE && o->kind == OP_ST && o->addr && S.nwbase[t] == NULL && S.nwobjs[t] > 0) {
@@ -485,13 +498,13 @@ static void note_step (int t) {
 		   none of them may still be asleep (semaphore at 0, deadline ahead) in its wait */
 		int u;
 		for (u = 0; u < S.n; u++) if (rt_state (u) == F_PARKED && rt_pending (u)->kind == OP_SEMPD && !rt_enabled (u)) {
-			char fb[64]; int j, k, x, nob = S.swlive[u] ? (S.swnote[u] ? 1 : 0) : S.nwobjs[u];
+			char fb[64]; int j, k, x, nob = S.swlive[u] ? (S.swnote[u] ? 1 : 0) : (S.inwait[u] ? S.nwobjs[u] : 0);      /* only a thread inside a wait call: the same function is also the sleep of nsync_mu_wait when the real mutex is linked */
 			rt_op_fn (rt_pending (u), fb, sizeof fb);
 			if (strcmp (fb, "nsync_sem_wait_with_cancel_") != 0 && strcmp (fb, "nsync_wait_n") != 0) continue;
 			for (j = 0; j < nob; j++) {
 				int a = S.swlive[u] ? S.swnote[u] : S.wobjs[u][j];
 				if (a <= 0 || a >= MAXOBJ) continue;      /* object 9 is the counter */
-				for (k = 0, x = a; k < MAXOBJ && x != 0; k++, x = S.lpar[x]) if (S.notify_returned[x]) {
+				for (k = 0, x = a; k < MAXOBJ && x != 0; k++, x = S.lpar[x]) if (S.notify_returned[x] && !notification_in_progress ()) {
 					rt_violation ("O-prog", "thread %d is still asleep in %s on note %d although nsync_note_notify of note %d had returned", u + 1, fb, a, x);
 					return;
 				}
@@ -599,6 +612,7 @@ int main (int argc, char **argv) {
 	struct rp_stats st;
 	const char *prop = getenv ("VERIF_PROP") ? getenv ("VERIF_PROP") : "C10";
 	if (argc < 3) { fprintf (stderr, "usage: h_l2 replay <schedule> [violdir] | h_l2 random <runs> <seed> <init> [violdir]\n"); return 2; }
+	dbg_steps = getenv ("VERIF_DEBUG") != NULL;
 	rt_init ();
 	rt_sem_single_step = 1;
 	rt_swc_region = 0;      /* sem_wait.c is code under test here: its steps are scheduled one by one */
